@@ -130,21 +130,38 @@ Definition site_filter (ft : ftype) (v : tval) : scalar :=
     end
   else scalar_of v.
 
-(** * The temporal pruner *)
+(** * The temporal pruner
 
-(** literal handling: parse as time, else u64, else 0; clamp at 0 *)
-Definition pruner_ts (sv : scalar) : Z :=
+    The shapes of the code that differ between the pinned tree and the proposed repair
+    (fixes/C16-pre-epoch-time-values.diff) are parameters, regenerated from the Rust text by
+    tools/params/p11_timesites.py:
+      [tsite_cal_guard]            temporal_builder.rs registers a zone in the field calendar only
+                                   when min_ts >= 0 && max_ts >= 0 (else: always, range clamped at 0)
+      [tsite_pruner_clamps]        temporal_pruner.rs clamps the literal at 0 and uses the clamped value
+                                   everywhere (else: signed literal, only the calendar lookup clamped)
+      [tsite_pruner_u64_fallback]  an unparsable string literal is tried as u64
+      [tsite_pruner_unparsable]    value of an unparsable literal otherwise
+      [tsite_bucket_hour/day/mod]  bucket sizes and the truncation of bucket ids.
+    The [_gen] functions take them as arguments (the theorems that do not depend on them are
+    proved for all values); the plain names are the instances for the current tree. *)
+
+(** literal handling: parse as time, else (u64, else) a default; clamp at 0 *)
+Definition pruner_ts_gen (clamps fallback : bool) (dflt : Z) (sv : scalar) : Z :=
   match sv with
-  | SInt i => Z.max i 0
+  | SInt i => if clamps then Z.max i 0 else i
   | SUtf8 s =>
       match parse_str_to_epoch_seconds s with
-      | Some p => Z.max p 0
-      | None => match parse_u64_str s with Some u => u | None => 0 end
+      | Some p => if clamps then Z.max p 0 else p
+      | None => if fallback
+                then match parse_u64_str s with Some u => u | None => dflt end
+                else dflt
       end
   | _ => 0
   end.
+Definition pruner_ts : scalar -> Z :=
+  pruner_ts_gen tsite_pruner_clamps tsite_pruner_u64_fallback tsite_pruner_unparsable.
 
-(** [ts as i64] *)
+(** [ts as i64] (the identity on values that already are i64) *)
 Definition wrap_i64 (u : Z) : Z := if u <? 2 ^ 63 then u else u - 2 ^ 64.
 
 (** a zone and the stamps of the time field of its events *)
@@ -155,11 +172,13 @@ Definition zmin (z : zone) : Z :=
 Definition zmax (z : zone) : Z :=
   match z_ts z with [] => 0 | x :: r => fold_left Z.max r x end.
 
-(** temporal_builder.rs: the zone enters the field calendar only when min and max are >= 0 *)
-Definition in_cal (z : zone) : bool := (0 <=? zmin z) && (0 <=? zmax z).
+(** temporal_builder.rs: which zones enter the field calendar *)
+Definition in_cal_gen (guard : bool) (z : zone) : bool :=
+  if guard then (0 <=? zmin z) && (0 <=? zmax z) else true.
+Definition in_cal : zone -> bool := in_cal_gen tsite_cal_guard.
 
 (** [bucket_id]: start of the bucket, truncated to u32 *)
-Definition u32_mod : Z := 2 ^ 32.
+Definition u32_mod : Z := tsite_bucket_mod.
 Definition bucket_id (g ts : Z) : Z := ((ts / g) * g) mod u32_mod.
 
 (** [add_zone_range]: every bucket from the one of [lo] to the one of [hi] *)
@@ -167,22 +186,26 @@ Definition buckets (g lo hi : Z) : list Z :=
   map (fun i => ((lo / g + Z.of_nat i) * g) mod u32_mod)
       (seq 0 (Z.to_nat (hi / g - lo / g + 1))).
 
-Definition zone_buckets (g : Z) (z : zone) : list Z :=
-  if in_cal z then buckets g (zmin z) (zmax z) else [].
+(** the range is registered as u64: clamped at 0 (a no-op under the guard) *)
+Definition zone_buckets_gen (guard : bool) (g : Z) (z : zone) : list Z :=
+  if in_cal_gen guard z then buckets g (Z.max 0 (zmin z)) (Z.max 0 (zmax z)) else [].
 
-Definition has_bucket (g : Z) (z : zone) (b : Z) : bool := existsb (Z.eqb b) (zone_buckets g z).
+Definition has_bucket_gen (guard : bool) (g : Z) (z : zone) (b : Z) : bool :=
+  existsb (Z.eqb b) (zone_buckets_gen guard g z).
 
 (** [zones_for_ts]: hour bucket when present in the hour map, else day bucket *)
-Definition cal_zones_eq (ts : Z) (zones : list zone) : list zone :=
-  match filter (fun z => has_bucket 3600 z (bucket_id 3600 ts)) zones with
-  | [] => filter (fun z => has_bucket 86400 z (bucket_id 86400 ts)) zones
+Definition cal_zones_eq_gen (guard : bool) (ts : Z) (zones : list zone) : list zone :=
+  match filter (fun z => has_bucket_gen guard tsite_bucket_hour z (bucket_id tsite_bucket_hour ts)) zones with
+  | [] => filter (fun z => has_bucket_gen guard tsite_bucket_day z (bucket_id tsite_bucket_day ts)) zones
   | hz => hz
   end.
 (** [zones_for_ge] / [zones_for_le]: day buckets compared by their (truncated) ids *)
-Definition cal_zones_ge (ts : Z) (zones : list zone) : list zone :=
-  filter (fun z => existsb (fun b => bucket_id 86400 ts <=? b) (zone_buckets 86400 z)) zones.
-Definition cal_zones_le (ts : Z) (zones : list zone) : list zone :=
-  filter (fun z => existsb (fun b => b <=? bucket_id 86400 ts) (zone_buckets 86400 z)) zones.
+Definition cal_zones_ge_gen (guard : bool) (ts : Z) (zones : list zone) : list zone :=
+  filter (fun z => existsb (fun b => bucket_id tsite_bucket_day ts <=? b)
+                           (zone_buckets_gen guard tsite_bucket_day z)) zones.
+Definition cal_zones_le_gen (guard : bool) (ts : Z) (zones : list zone) : list zone :=
+  filter (fun z => existsb (fun b => b <=? bucket_id tsite_bucket_day ts)
+                           (zone_buckets_gen guard tsite_bucket_day z)) zones.
 
 Inductive cmpop := OEq | ONeq | OGt | OGte | OLt | OLte | OIn.
 
@@ -198,23 +221,27 @@ Definition zti_ok (op : cmpop) (v : Z) (z : zone) : bool :=
   end.
 
 (** [apply_temporal_only]; [None] = no answer (the field selector then returns no zone) *)
-Definition prune (is_timestamp : bool) (op : cmpop) (sv : scalar) (zones : list zone)
+Definition prune_gen (guard clamps fallback : bool) (dflt : Z)
+                     (is_timestamp : bool) (op : cmpop) (sv : scalar) (zones : list zone)
   : option (list N) :=
-  let v := wrap_i64 (pruner_ts sv) in
+  let v := wrap_i64 (pruner_ts_gen clamps fallback dflt sv) in
+  let vc := if clamps then v else Z.max v 0 in      (* what the calendar is asked *)
   match op with
   | OEq | OGt | OGte | OLt | OLte =>
-      if negb (existsb in_cal zones) then (if is_timestamp then Some [] else None)
+      if negb (existsb (in_cal_gen guard) zones) then (if is_timestamp then Some [] else None)
       else
         let cands :=
-          if v <? 0 then []
+          if vc <? 0 then []
           else match op with
-               | OEq => cal_zones_eq v zones
-               | OGt | OGte => cal_zones_ge v zones
-               | _ => cal_zones_le v zones
+               | OEq => cal_zones_eq_gen guard vc zones
+               | OGt | OGte => cal_zones_ge_gen guard vc zones
+               | _ => cal_zones_le_gen guard vc zones
                end in
         Some (map z_id (filter (zti_ok op v) cands))
   | _ => None
   end.
+Definition prune : bool -> cmpop -> scalar -> list zone -> option (list N) :=
+  prune_gen tsite_cal_guard tsite_pruner_clamps tsite_pruner_u64_fallback tsite_pruner_unparsable.
 
 (** * Materialised queries: [delta_command] *)
 Definition parse_since_epoch (s : bytes) : option Z :=
